@@ -10,7 +10,8 @@ import numpy as np
 import torch
 import torchtt
 
-from rt_common import case_id, clause, contract, dense, fro, rand_tt, seed_all, shape_of, within
+from rt_common import (case_id, clause, contract, dense, fro, rand_tt, seed_all, shape_of, snapshot_tt, unchanged_named,
+                       within)
 
 C = 20.0
 FLOOR = 1e-10
@@ -109,29 +110,41 @@ def _is_tt(result):
     return isinstance(result, torchtt.TT), "result is %s" % type(result).__name__
 
 
+def _as_list(x):
+    return list(x) if isinstance(x, (list, tuple)) else [x]
+
+
 @contract
+@icontract.snapshot(lambda x_start: snapshot_tt(x_start), name="start")
+@clause("guess_unchanged", lambda OLD, x_start: unchanged_named([("x_start (initial guess)", OLD.start, x_start)]))
 @clause("wellformed_calls", lambda log: _wellformed(log))
 @clause("accuracy", lambda result, exact, eps: _accuracy(result, exact, eps))
 @clause("shape", lambda result, N: ((not result.is_ttm) and shape_of(result) == list(N),
                                     "expected TT tensor of shape %s, got %s" % (list(N), shape_of(result))))
 @clause("is_tt", lambda result: _is_tt(result))
 @icontract.require(lambda N: len(N) >= 2 and all(n >= 1 for n in N))
-def dmrg_cross(f, N, eps, exact, log, nswp=10, kick=2):
+def dmrg_cross(f, N, eps, exact, log, x_start=None, nswp=10, kick=2):
     # real signature: dmrg_cross(function, N, eps=1e-9, nswp=10, x_start=None, kick=2, dtype=tn.float64, device=None,
     #                            eval_vect=True, verbose=False)
-    return torchtt.interpolate.dmrg_cross(f, list(N), eps=eps, nswp=nswp, kick=kick)
+    return torchtt.interpolate.dmrg_cross(f, list(N), eps=eps, nswp=nswp, x_start=x_start, kick=kick)
 
 
 @contract
+@icontract.snapshot(lambda start_tens: snapshot_tt(start_tens), name="start")
+@icontract.snapshot(lambda x: [snapshot_tt(t) for t in _as_list(x)], name="args")
+@clause("guess_unchanged", lambda OLD, start_tens, x: unchanged_named(
+    [("start_tens (initial guess)", OLD.start, start_tens)] +
+    [("argument tensor %d" % j, o, t) for j, (o, t) in enumerate(zip(OLD.args, _as_list(x)))]))
 @clause("wellformed_calls", lambda log: _wellformed(log))
 @clause("accuracy", lambda result, exact, eps: _accuracy(result, exact, eps))
 @clause("shape", lambda result, N: ((not result.is_ttm) and shape_of(result) == list(N),
                                     "expected TT tensor of shape %s, got %s" % (list(N), shape_of(result))))
 @clause("is_tt", lambda result: _is_tt(result))
-def function_interpolate(f, x, eps, exact, log, N, nswp=20, kick=2):
+def function_interpolate(f, x, eps, exact, log, N, start_tens=None, nswp=20, kick=2):
     # real signature: function_interpolate(function, x, eps=1e-9, start_tens=None, nswp=20, kick=2, dtype=tn.float64,
     #                                      verbose=False)
-    return torchtt.interpolate.function_interpolate(f, x, eps=eps, nswp=nswp, kick=kick)
+    # `exact` and the membership tables inside `f` were computed from the argument tensors BEFORE this call.
+    return torchtt.interpolate.function_interpolate(f, x, eps=eps, start_tens=start_tens, nswp=nswp, kick=kick)
 
 
 # ---------------------------------------------------------------------------------- function_interpolate inputs
@@ -154,7 +167,7 @@ MULTI = {
 def _member_checker(values, what, log):
     """closure checking that every entry of a 1-D tensor is (within 1e-12) an entry of `values`."""
     sv = torch.sort(values.reshape(-1).to(torch.float64))[0]
-    scale = max(1.0, float(sv.abs().max()))
+    scale = float(sv.abs().max())          # tolerance is RELATIVE: 1e-12 * max|x| (the unchanged library shows ~2e-16)
 
     def chk(v):
         v = v.reshape(-1).to(torch.float64)
@@ -166,14 +179,40 @@ def _member_checker(values, what, log):
         worst = float(dist.max()) if dist.numel() else 0.0
         if not (worst <= VALUE_TOL * scale):
             i = int(torch.argmax(dist))
-            log.note("%s: value %.17g is not an entry of the argument tensor (distance %.3e to the nearest entry)" % (
-                what, float(v[i]), worst))
+            log.note("%s: value %.17g is not an entry of the argument tensor (distance %.3e to the nearest entry = %.3e * max|x|"
+                     ", allowed 1e-12)" % (what, float(v[i]), worst, worst / scale if scale else float("inf")))
     return chk
+
+
+def noisy_smooth_argument(N, j, seed):
+    """Round 3: argument tensor with fast decaying but FULL numerical rank: smooth positive function on the grid plus a dense
+    random perturbation of relative size 1e-6, decomposed exactly (torchtt.TT(dense, eps=1e-15))."""
+    grids = torch.meshgrid(*[torch.arange(n, dtype=torch.float64) / n for n in N], indexing="ij")
+    smooth = 1.0 + 0.5 * j + 1.0 / (1.0 + sum((k + 1 + j) * g for k, g in enumerate(grids)))
+    gen = torch.Generator().manual_seed(3000 + 17 * seed + j)
+    pert = torch.randn(smooth.shape, generator=gen, dtype=torch.float64)
+    full = smooth + 1e-6 * float(torch.linalg.norm(smooth) / torch.linalg.norm(pert)) * pert
+    return torchtt.TT(full, list(N), eps=1e-15)
 
 
 def univariate_setup(a, log):
     N = list(a["N"])
     d = len(N)
+    if a.get("arg") == "noisy":
+        x = noisy_smooth_argument(N, 0, a["seed"])
+        xd = dense(x)
+        fn = UNI[a["f"]]
+        chk = _member_checker(xd, "argument", log)
+
+        def gn(t):
+            log.calls += 1
+            if not torch.is_tensor(t):
+                log.note("argument is %s, not a torch tensor" % type(t).__name__)
+                t = torch.as_tensor(t)
+            log.rows += t.numel()
+            chk(t)
+            return fn(t)
+        return gn, x, fn(xd)
     # argument tensor with strictly positive entries and modest rank: x = 1 + (i1+..+id)/sum(N)  (+ rank-1 bump)
     vecs = [torch.arange(n, dtype=torch.float64) / float(sum(N)) for n in N]
     x = torchtt.ones(N)
@@ -206,6 +245,8 @@ def multivariate_setup(a, log):
     nargs = a.get("nargs", d)
     vecs = [torch.linspace(0.0, 1.0, n, dtype=torch.float64) + 0.1 * k for k, n in enumerate(N)]
     xs = torchtt.meshgrid(vecs)[:nargs]
+    if a.get("arg") == "noisy":
+        xs = [noisy_smooth_argument(N, j, a["seed"]) for j in range(nargs)]
     xds = [dense(t) for t in xs]
     fn = MULTI[a["f"]]
     chks = [_member_checker(xd, "column %d" % j, log) for j, xd in enumerate(xds)]
@@ -236,16 +277,21 @@ def run_case(a, check):
     if op == "dmrg_cross":
         f, exact = index_function(a["f"], N, a["seed"])
         g = guarded_index_function(f, N, log)
+        start = None if a.get("start") is None else torchtt.random(N, int(a["start"]))
         seed_all(a["seed"] + 7919)
-        check(None, lambda: dmrg_cross(g, N, a["eps"], exact, log))
+        check(None, lambda: dmrg_cross(g, N, a["eps"], exact, log, start))
     elif op == "fi_uni":
         g, x, exact = univariate_setup(a, log)
+        st = a.get("start")
+        start = None if st is None else (x if st == "arg" else torchtt.random(N, int(st)))   # "arg": start_tens IS x
         seed_all(a["seed"] + 7919)
-        check(None, lambda: function_interpolate(g, x, a["eps"], exact, log, N))
+        check(None, lambda: function_interpolate(g, x, a["eps"], exact, log, N, start))
     elif op == "fi_multi":
         g, xs, exact = multivariate_setup(a, log)
+        st = a.get("start")
+        start = None if st is None else (xs[0] if st == "arg" else torchtt.random(N, int(st)))
         seed_all(a["seed"] + 7919)
-        check(None, lambda: function_interpolate(g, xs, a["eps"], exact, log, N))
+        check(None, lambda: function_interpolate(g, xs, a["eps"], exact, log, N, start))
     else:
         raise ValueError("unknown op %r" % op)
 
@@ -296,6 +342,33 @@ def enumerate_cases(tier, seed):
     for N in ([[4, 5, 6]] if quick else [[4, 5, 6], [3, 4, 5, 6]]):
         for s in seeds[:2]:
             cases.append(_mk("fi_multi", "sum", N, 1e-6, s, nargs=2))
+    # round 3 (a): argument tensors with fast decaying but full numerical rank (smooth + 1e-6 dense perturbation)
+    n_shapes = [[6, 7, 8], [5, 6], [4, 5, 4, 5]] if quick else [[6, 7, 8], [5, 6], [12, 11], [4, 5, 4, 5], [3, 4, 3, 4, 3]]
+    for N in n_shapes:
+        for eps in [1e-3, 1e-5, 1e-9]:
+            for s in (seeds[:2] if quick else seeds[:3]):
+                for f in (["square", "log", "inv"] if quick else list(UNI)):
+                    cases.append(_mk("fi_uni", f, N, eps, s, arg="noisy"))
+                for f in (["sum", "inv_sum"] if quick else ["sum", "inv_sum", "first_times_last", "exp_mean"]):
+                    cases.append(_mk("fi_multi", f, N, eps, s, arg="noisy"))
+    # round 3 (b): user supplied starting tensors (x_start / start_tens), incl. the argument object itself
+    for N in ([[4, 4, 4], [5, 6, 7], [3, 4, 5, 6]] if quick else [[4, 4, 4], [2, 3], [5, 6, 7], [3, 4, 5, 6], [2, 2, 2, 2, 2]]):
+        for eps in ([1e-6] if quick else [1e-4, 1e-9]):
+            for s in seeds[:2]:
+                for st in (2, 4):
+                    for f in ("sum", "inv", "ttrank3"):
+                        cases.append(_mk("dmrg_cross", f, N, eps, s, start=st))
+                for st in (3, "arg"):
+                    cases.append(_mk("fi_uni", "square", N, eps, s, start=st))
+                    cases.append(_mk("fi_uni", "inv", N, eps, s, start=st, arg="noisy"))
+                    cases.append(_mk("fi_multi", "inv_sum", N, eps, s, start=st))
+                    cases.append(_mk("fi_multi", "sum", N, eps, s, start=st, arg="noisy"))
+    # round 3 (c): OVER-RANKED starting tensors (rank 4 next to a mode of size 2 or 3: more than any tensor of that shape needs)
+    for N in ([[2, 3, 2]] if quick else [[2, 3, 2], [2, 2, 2, 2, 2], [3, 2, 3]]):
+        for s in seeds[:2]:
+            cases.append(_mk("dmrg_cross", "sum", N, 1e-6, s, start=4))
+            cases.append(_mk("fi_uni", "square", N, 1e-6, s, start=4))
+            cases.append(_mk("fi_multi", "sum", N, 1e-6, s, start=4))
     # order-1 arguments
     for s in seeds[:1]:
         cases.append(_mk("fi_uni", "square", [7], 1e-6, s, bump=0))
@@ -313,7 +386,14 @@ def bound(tier, seed):
                 "order-1 argument (N=[7]); eps in {1e-4,1e-9}; seeds {%d,1,2}; float64. Every call of the user function is "
                 "checked: dmrg_cross -> 2-D integer tensor with d columns and 0 <= I[:,k] < N[k]; function_interpolate -> "
                 "every value (column j) is within 1e-12 of an entry of the (j-th) argument tensor. Contract: TT tensor of "
-                "shape N, ||dense(result)-exact|| <= (20*eps + 1e-10)*||exact||." % seed)
+                "shape N, ||dense(result)-exact|| <= (20*eps + 1e-10)*||exact||. ROUND 3: the membership tolerance is relative (1e-12*max|x|); "
+                "(a) argument tensors of full numerical rank: torchtt.TT(smooth + 1e-6-relative dense random perturbation, eps=1e-15) "
+                "with smooth = 1 + j/2 + 1/(1+sum_k (k+1+j) i_k/n_k), N in {[6,7,8],[5,6],[4,5,4,5]}, eps in {1e-3,1e-5,1e-9}, single "
+                "argument with f in {t^2, log, 1/t} and list of d such tensors with f in {sum, 1/(2+sum)}, 2 seeds; (b) user "
+                "supplied starting tensors: dmrg_cross(x_start = torchtt.random rank 2 / 4), function_interpolate(start_tens = "
+                "torchtt.random rank 3, and start_tens = the argument object itself / the first argument of the list) on "
+                "{[4,4,4],[5,6,7],[3,4,5,6]}, eps 1e-6, plus an over-ranked start (rank 4) on N=[2,3,2]; clause guess_unchanged: the starting tensor and every argument tensor are "
+                "bit-for-bit unchanged after the call." % seed)
     return ("C14 thorough: as quick with 14 shapes of order 2..5 and sizes 2..20, f additionally sqrt(1+sum) and exact TT ranks "
             "1..4; eps in {1e-3,1e-6,1e-9,1e-10}; seeds {%d,1,2,3,4}; function_interpolate also with a rank-1 bump added to "
             "the argument tensor and f in {t^2, log, sqrt, 1/t, 2t+1} / {sum, 1/(2+sum), first*last, exp(-mean)}." % seed)
